@@ -346,6 +346,29 @@ fn table_strategy(idx: usize, page_id: i32, long: bool) -> impl Strategy<Value =
                 }
                 rows.push(row);
             }
+            // one table in 24 is tall: 1,100..3,100 rows, so that its stream
+            // spans several of the container's 8 KiB buffers (copies of the
+            // first row under fresh keys)
+            if !rows.is_empty() && longpos.index(24) == 7 {
+                let defs: Vec<ColDef> = cols.iter().map(|c| c.def.clone()).collect();
+                let kc = defs.iter().position(|c| c.key).unwrap_or(0);
+                let mut seen: std::collections::HashSet<Vec<V>> = rows.iter().map(|r| key_of(&defs, r)).collect();
+                let target = 1_100 + longpos.index(2_000);
+                let template = rows[0].clone();
+                let mut i = 0i32;
+                while rows.len() < target && i < 40_000 {
+                    i += 1;
+                    let mut r = template.clone();
+                    r[kc] = match defs[kc].ty {
+                        Ty::I16 => V::Int(i % 32_767 - 16_000),
+                        Ty::I32 => V::Int(i * 3 + 70_000),
+                        Ty::Str(_) => V::Str(format!("t{i}")),
+                    };
+                    if seen.insert(key_of(&defs, &r)) {
+                        rows.push(r);
+                    }
+                }
+            }
             if long && !rows.is_empty() {
                 // one cell beyond 64 KiB
                 if let Some(ci) = cols.iter().position(|c| matches!(c.def.ty, Ty::Str(_)) && !c.def.key) {
